@@ -7,6 +7,7 @@
 //   - with a parameter of type io.Writer (the CALLER's writer)            -> kind EWriter, or
 //     EDelegate when its body is exactly `return recv.Other(w, ..)` with Other an EWriter entry;
 //   - without one but calling package os or io/ioutil                     -> kind EFileSys (File.Save).
+//
 // Exported functions that only call an entry point with a local buffer (GoString) are listed in
 // io_notes.
 //
@@ -52,6 +53,7 @@ import (
 	"bytes"
 	"fmt"
 	"go/ast"
+	"go/build"
 	"go/build/constraint"
 	"go/importer"
 	"go/parser"
@@ -719,6 +721,17 @@ type entry struct {
 	body                     []string
 }
 
+// matchFile: is this file part of the package as the go tool builds it here (GOOS, GOARCH,
+// release tags, file name suffixes, //go:build and +build lines; no extra tags, so files
+// guarded by the `verif` tag are left out)?  go/build decides, the same way `go build` does.
+func matchFile(path string) bool {
+	ok, err := build.Default.MatchFile(filepath.Dir(path), filepath.Base(path))
+	if err != nil {
+		die("%s: %v", path, err)
+	}
+	return ok
+}
+
 func main() {
 	if len(os.Args) < 2 {
 		die("usage: io2coq <repo>")
@@ -739,7 +752,7 @@ func main() {
 		if err != nil {
 			die("%v", err)
 		}
-		if buildable(f) {
+		if matchFile(n) {
 			files = append(files, f)
 		}
 	}
